@@ -64,6 +64,7 @@ type GroupRec struct {
 	EffMin    int
 	EffMax    int
 	Dry       bool
+	PrevIncreaseFailed bool // the previous scan's cloud scale-up of this group failed (no lock may result)
 	Locked    bool      // lock model says locked when processing started
 	LockT0    time.Time // valid when Locked
 	Start     time.Time // virtual time of the marker
@@ -303,8 +304,21 @@ func (w *World) analyse(rec *ScanRecord) {
 	}
 	for _, gr := range rec.Groups {
 		w.derive(rec, gr)
+		if at, ok := w.FailedIncrease[gr.G]; ok && at == rec.Index-1 {
+			gr.PrevIncreaseFailed = true
+		}
 		if gr.ScaleUpOK {
 			w.LockT0[gr.G] = gr.ScaleUpAt
+			delete(w.FailedIncrease, gr.G)
+		} else {
+			for _, e := range gr.IncreaseCalls {
+				if !e.OK() {
+					if w.FailedIncrease == nil {
+						w.FailedIncrease = map[int]int{}
+					}
+					w.FailedIncrease[gr.G] = rec.Index
+				}
+			}
 		}
 	}
 }
